@@ -36,6 +36,8 @@ structure Param where
   constant : Bool
   readonly : Bool
   default : Obj
+  /-- `allow_refs`: an async function assigned to the parameter is resolved and its result assigned -/
+  allowRefs : Bool := false
   deriving Repr, DecidableEq
 
 structure Cls where
@@ -97,6 +99,9 @@ inductive Op
   | clsFlag (c : CId) (n : Name) (b : Bool)
   /-- `obj.param[n]` (creates the per-instance Parameter copy) -/
   | getParam (i : IId) (n : Name)
+  /-- `async def f(): return v` then `setattr(obj, n, f)`, no event loop running (the reference is
+  resolved synchronously inside the assignment); only for `allow_refs=True` parameters -/
+  | instSetAsync (i : IId) (n : Name) (v : Obj)
   /-- `raise RuntimeError()` -/
   | raise
   /-- `with edit_constant(obj): body` -/
@@ -317,6 +322,21 @@ def step (s : St) : Op → St × Res
       match held s i n with
       | none => (s, .skip)
       | some v => instSetCore s i n v
+  | .instSetAsync i n v =>
+    -- src: Parameter.__set__, `allow_refs` branch: `_resolve_ref` installs the link and runs
+    -- `_async_ref` to completion, which writes the awaited result with `self_.update({name: result})`
+    -- under `_syncing`: the ordinary guarded assignment of `v` (its TypeError propagates)
+    match s.insts[i]? with
+    | none => (s, .stuck)
+    | some x =>
+      match pobjOf s x n with
+      | none => (s, .skip)
+      | some gp =>
+        match s.heap[gp]? with
+        | none => (s, .stuck)
+        | some q =>
+          if q.allowRefs then instSetCore s i n v
+          else (s, .skip)   -- a plain value: the function object itself, outside the value universe
   | .update i kvs =>
     match s.insts[i]? with
     | none => (s, .stuck)
@@ -371,22 +391,23 @@ def run (s : St) (ops : List Op) : St := ops.foldl (fun s op => (step s op).1) s
 
 /-! ### Class creation -/
 
-/-- one `class K(bases): n = param.Parameter(default=…, constant=…, readonly=…) …` statement.
+/-- one `class K(bases): n = param.Parameter(default=…, constant=…, readonly=…, allow_refs=…) …` statement.
 Parameter objects are numbered per class: the declared ones in declaration order
 (`Parameter.__init__`: `readonly ⇒ constant`), then the class's own copy of `name`, created by the
 metaclass when it assigns `cls.name = <class name>` (constant, not read-only; its default is the
 class-name object `npool + c`). -/
-def declare (npool : Nat) (s : St) (d : List CId × List (Name × Bool × Bool × Obj)) : St :=
+def declare (npool : Nat) (s : St) (d : List CId × List (Name × Bool × Bool × Obj × Bool)) : St :=
   let c := s.classes.length
   let (dict, heap) := d.2.foldl (fun (acc : List (Name × PId) × List Param) e =>
       (aset acc.1 e.1 acc.2.length,
-       acc.2 ++ [{ constant := e.2.1 || e.2.2.1, readonly := e.2.2.1, default := e.2.2.2 }])) ([], s.heap)
+       acc.2 ++ [{ constant := e.2.1 || e.2.2.1, readonly := e.2.2.1, default := e.2.2.2.1,
+                   allowRefs := e.2.2.2.2 }])) ([], s.heap)
   { s with heap := heap ++ [{ constant := true, readonly := false, default := npool + c }],
            classes := s.classes ++ [{ mro := d.1, dict := aset dict "name" heap.length, nameObj := npool + c }] }
 
 /-- the state after all class statements of a history; value objects `0 … npool-1` are the pool,
 `npool + c` the class names, the following ones generated instance names -/
-def initState (npool : Nat) (decls : List (List CId × List (Name × Bool × Bool × Obj))) : St :=
+def initState (npool : Nat) (decls : List (List CId × List (Name × Bool × Bool × Obj × Bool))) : St :=
   { decls.foldl (declare npool) { heap := [], classes := [], insts := [], nextObj := 0 } with
     nextObj := npool + decls.length }
 
